@@ -85,6 +85,15 @@ def r1_adoption_kernel(ctx, rule):
     after = outcomes(body[idx + 1:], {}, terms)
     # the loop examines EVERY co-parent: it is left only by the `return False` of a co-parent that out-ranks this one (a `break` - e.g.
     # in place of the `continue` that skips the parent's own position - would let the kernel adopt without asking the co-parents to the right)
+    # (the front end turns such a break into the `return True` that follows the loop - S23 - so the same slip also shows as a
+    # position that is skipped by RETURNING: a guard that does not look at the co-parent's probability must `continue`)
+    for g_ in loop.body:
+        if isinstance(g_, ast.If) and not any(isinstance(x, ast.Name) and x.id == other_prob for x in ast.walk(g_.test)) \
+                and any(isinstance(x, ast.Return) for b_ in g_.body + g_.orelse for x in ast.walk(b_)):
+            ctx.bad(rule, qual, 'a position is skipped by returning: if %s: %s' % (U(g_.test)[:40], U(g_.body[-1])[:30]),
+                    'a position without a co-parent (the parent\'s own position, an index of 0) says nothing about the positions to its right: the '
+                    'loop must go on to them', facts, g_, firm=True)
+            return
     brk = [x for b in loop.body for x in ast.walk(b) if isinstance(x, ast.Break)]
     if brk:
         ctx.bad(rule, qual, 'the co-parent loop is left by break (line %d)' % brk[0].lineno,
